@@ -95,13 +95,15 @@ def _c18_nontrivial(line, verdict):
     return "resource-limit" not in verdict
 
 PROPS["C18"] = {
-    "modules": ["IbexProofs.Props.C18"],
-    "harnesses": ["h_cov"],
+    "modules": ["IbexProofs.Props.C18", "IbexProofs.Props.C18resume"],
+    "harnesses": ["h_cov", "h_solver"],
     "workloads": lambda tier, seed: [
         # random objects of the 7 classes: save, bytes vs model, reload, cross-class loads, trailing bytes
         {"harness": "h_cov", "tag": "save", "args": ["save", seed, 280 if tier == "quick" else 4000] + (["full"] if tier == "thorough" else [])},
         # small objects: every truncation, every single-field corruption, byte flips, other-class readers
         {"harness": "h_cov", "tag": "corrupt", "args": ["corrupt", seed, 28 if tier == "quick" else 210] + (["full"] if tier == "thorough" else [])},
+        # solver: interruption at every cell count k (and by the time limit), save, load, resume, chains of interruptions
+        {"harness": "h_solver", "tag": "resume", "args": ["c18r", seed, 45 if tier == "quick" else 400] + (["full"] if tier == "thorough" else [])},
     ],
     "nontrivial": _c18_nontrivial,
     "rule": "save: random contents built through the API of Cov, CovList, CovIUList, CovIBUList, CovManifold, CovSolverData, "
@@ -110,7 +112,14 @@ PROPS["C18"] = {
             "constructor (must be identical), loaded by the constructor of every other class, with trailing bytes; corrupt: for "
             "small objects every truncation, every u32/f64/char field replaced by 0,1,2,max,+-1,+2,sign flip,byte swap..., random "
             "byte flips: the real reader and the model must reject the same files and load the same content otherwise; every "
-            "load runs in a forked child (crash = finding); distinct = distinct lines, non-trivial = not stopped by the 256 MB limit",
+            "load runs in a forked child (crash = finding); distinct = distinct lines, non-trivial = not stopped by the 256 MB limit; "
+            "resume (solver): random systems with planted solutions (0..n equations, inequalities, singular roots that leave unknown boxes), "
+            "assemblies HC4/Acid/Newton x RoundRobin/LargestFirst/SmearSumRelative x stack/list; the search is interrupted by cell_limit=k for "
+            "EVERY k=1..N+1 when N<=24 cells (thorough: N<=120; larger searches: first, last and sampled k) and by a tiny time limit, "
+            "saved to a COV file, reloaded (resumeload: loaded paving = saved paving), resumed by a fresh solver with fresh components "
+            "(25%: interrupted again, chains of 2-3 resumptions); per resumed run `Cover.stageOk` (carry-over of validated boxes unchanged, "
+            "unknown/pending boxes re-queued or kept, log accepted by the cover certificate) and on the final data the C05/C06 rules: exactly "
+            "feasible planted/sampled points in the paving, inner boxes proved by the model, unknown boxes small, status agrees with the output",
     "assumptions": ["correspondence is sampled: the real writer/reader agree with encode/decode on every generated file",
                     "the reader of class k is modelled at the level of the file contents it returns through the public accessors "
                     "(statuses per box, index lists, varsets, names, scalars); object internals are not modelled",
